@@ -7,13 +7,17 @@ RULE = ('(i) complete levels: all ids of level b (b<=6 quick / 8 thorough) group
         'for every cell c of level a, cell_to_children(c, b) must be duplicate-free, of the model length, equal to that group, '
         'ascending and a contiguous run of the sorted level (res(c)>=1); (ii) deep random triples (c, a, b), r in -1..29, '
         'b<=min(r+3,29): same post-conditions plus range probing with ids built around the run; composition of parents; '
-        'defaults; error paths; uncompact / compact calls on coarse cells (results scrambled) interleaved as hostile history. distinct = distinct (c, a, b); non-trivial = b>res(c) or a<res(c)')
+        'defaults; error paths; a ladder of large fan-outs (world -> 8/9, face -> 9..11, cells -> +10 levels, i.e. up to 4^10 ids per call and 5 x 4^10 in the thorough tier) checked for count, distinctness, order, parentage and two-step composition; uncompact / compact calls on coarse cells (results scrambled) interleaved as hostile history. distinct = distinct (c, a, b); non-trivial = b>res(c) or a<res(c)')
 ASSUMPTIONS = ['arities 12/5/4 are the only model constants', 'b=30 is outside this property (see C05 known finding)']
 
 
 def plan(tier, seed):
     top = 6 if tier == 'quick' else 8
     specs = [{'part': 'levels', 'b': b} for b in range(0, top + 1)]
+    ladder = [(-1, 8), (0, 9), (1, 10), (2, 12), (7, 17), (19, 29)] if tier == 'quick' else \
+        [(-1, 8), (-1, 9), (0, 9), (0, 10), (0, 11), (1, 10), (1, 11), (2, 12), (2, 13), (4, 14), (7, 17), (9, 20), (18, 29), (19, 29)]
+    for rc, b in ladder:
+        specs.append({'part': 'ladder', 'rc': rc, 'b': b})
     n = 3500 if tier == 'quick' else 60000
     for i in range(16 - len(specs) if tier == 'quick' else 24):
         specs.append({'part': 'deep', 'n': n})
@@ -95,6 +99,40 @@ def run_shard(spec, ctx):
                         ctx.fail('parent_composition', {'c': y, 'a': a, 'a2': a2})
             ctx.count('level_pairs')
         ctx.sample({'level': b, 'cells': len(Lb), 'example_child_run': Lb[:4]})
+        return
+    if spec['part'] == 'ladder':
+        # large fan-outs (up to 4^10 per cell and beyond): count, distinctness, order, contiguity and parentage of the whole run
+        rc, b = spec['rc'], spec['b']
+        c = 0 if rc == -1 else gen.cell_by_path(a5, ctx.rnd.randrange(12), None if rc == 0 else ctx.rnd.randrange(5),
+                                                gen.digits_pattern(ctx.rnd, max(0, rc - 1)))
+        case = {'c': c, 'a': rc, 'b': b, 'r': rc, 'ladder': True}
+        ctx.case((c, rc, b))
+        try:
+            ch = a5.cell_to_children(c, b)
+        except Exception as e:
+            ctx.fail('children_raises', case, exc=repr(e))
+            return
+        want = model_len(rc, b)
+        ctx.count('ladder_children', len(ch))
+        if len(ch) != want or len(set(ch)) != len(ch):
+            ctx.fail('children_length', case, got=len(ch), distinct=len(set(ch)), want=want)
+        if rc >= 1 and any(ch[i] >= ch[i + 1] for i in range(len(ch) - 1)):
+            ctx.fail('children_not_ascending', case)
+        step = max(1, len(ch) // 20000)
+        for x in ch[::step] + ch[-3:]:
+            if a5.get_resolution(x) != b or a5.cell_to_parent(x, rc) != c:
+                ctx.fail('child_parent', case, child=x)
+                break
+        if rc >= 1 and len(ch) == want:
+            # contiguity: the run must be exactly the ids between its ends at that level -> one level up the parents must be the
+            # run of the level above (checked recursively by sampling): compare with the expansion in two steps
+            mid = (rc + b) // 2
+            two = []
+            for m in a5.cell_to_children(c, mid):
+                two.extend(a5.cell_to_children(m, b))
+            if two != ch:
+                ctx.fail('expansion_not_compositional', case, mid=mid)
+        ctx.sample({'c': c, 'rc': rc, 'b': b, 'children': len(ch)})
         return
     # deep random triples
     import a5.core.serialization as ser
@@ -207,6 +245,10 @@ def finalize(m, tier):
 def replay(f, ctx):
     import a5
     c = f['case']
+    if c.get('ladder'):
+        from rv.run import Recorder
+        run_shard({'part': 'ladder', 'rc': c['a'], 'b': c['b']}, ctx)
+        return
     if 'c' in c and 'b' in c:
         rc = a5.get_resolution(c['c'])
         check_children(a5, c['c'], rc, c['b'], ctx, c)
